@@ -202,6 +202,7 @@ class BodyRun:
     defs: list = None
     facts: list = None
     call_obl: list = None
+    exp_args: list = None
 
 
 def run_body(c: Contract, reg: Registry, extra_overrides=None) -> BodyRun:
@@ -241,6 +242,7 @@ def run_body(c: Contract, reg: Registry, extra_overrides=None) -> BodyRun:
     run.strict_ids = list(Ctx.strict)
     run.facts = list(Ctx.facts)
     run.call_obl = list(Ctx.call_obl)
+    run.exp_args = list(Ctx.exp_args)
     return run
 
 
@@ -285,6 +287,14 @@ def body_obligations(run: BodyRun, strict=False, only=None):
                     continue
                 kind, cond, desc = run.defs[k]
                 obls.append((f"{c.short}:strict#{k}[{kind}]", allh, cond))
+        # no overflow: every exponential evaluated by the body has an argument bounded above (exp(709.8) overflows float64 (88.7 float32);
+        # the repository's own safeguard is save_exp's clip at 20
+        seen_exp = set()
+        for k, a in enumerate(run.exp_args or []):
+            if a.get_id() in seen_exp:
+                continue
+            seen_exp.add(a.get_id())
+            obls.append((f"{c.short}:no overflow: exp argument #{k} <= 700", allh, a <= 700))
         for name, ens in c.ensures.items():
             if only is not None and not only(name):
                 continue
